@@ -663,7 +663,7 @@ package bloomsearch
 //@ func (*blockFilterCursor).filtersFor
 //@ props C19 C24 C01 C03
 //@ requires c != nil && 0 <= i && i < len(c.blocks) && cursorOK(c)
-//@ modifies c.buf, c.chunkStart, c.chunkShare, heap(byte), heap(bloom.BloomFilter), heap(bitset.BitSet), heap(uint64), ghost.bufOwned, scanBufferPools
+//@ modifies c.buf, c.chunkStart, c.chunkShare, heap(byte), heap(BloomFilters), heap(bloom.BloomFilter), heap(bitset.BitSet), heap(uint64), ghost.bufOwned, scanBufferPools
 //@ ensures cursorOK(c)
 //@ ensures readFailed ==> err != nil
 //@ ensures err == nil ==> filters != nil
@@ -1000,6 +1000,54 @@ package bloomsearch
 //@ alloc_limit fileSize(file)
 //@ modifies heaps, ghost.bufOwned
 //@ at call getScanBuffer#1 assert [C19] blockMetadata.BloomFilterSize <= fileSize(file)
+
+//@ extern bytes.NewReader
+//@ pure
+//@ extern (*bloom.BloomFilter).ReadFrom
+//@ modifies heap(bloom.BloomFilter), heap(bitset.BitSet), heap(uint64)
+//@ extern json.Unmarshal
+//@ modifies heaps
+//@ extern io.ReadSeeker.Read
+//@ modifies p[*]
+
+// parseFilterSection: CRC first; every slice of the section is in bounds for
+// arbitrary section bytes (the length prefixes are attacker-controlled).
+//@ func parseFilterSection
+//@ props C19
+//@ safety
+//@ modifies heap(BloomFilters), heap(bloom.BloomFilter), heap(bitset.BitSet), heap(uint64)
+//@ ensures result1 == nil ==> result0 != nil
+
+// The closure that reads one length-prefixed filter: the remainder slice shrinks
+// and never goes out of bounds.
+//@ func parseFilterSection$1
+//@ props C19
+//@ safety
+//@ modifies rest, heap(bloom.BloomFilter), heap(bitset.BitSet), heap(uint64)
+
+//@ func fileMetadataFromBytesWithHash
+//@ props C19
+//@ safety
+//@ requires len(expectedHashBytes) >= 4
+//@ modifies heaps
+//@ ensures result1 == nil ==> result0 != nil
+//@ at call Unmarshal#1 assert [C19] actualHash == expectedHash     // verify before use: JSON is parsed only after its CRC matched
+
+// ReadFileMetadata: arbitrary file bytes and arbitrary file size — every read is
+// preceded by a bounds decision, every allocation is bounded by the file size,
+// and metadata is returned only after validate accepted it.
+//@ func ReadFileMetadata
+//@ props C19 C17
+//@ safety
+//@ alloc_limit fileSize(r)
+//@ modifies heaps
+//@ ensures result2 == nil ==> result1 == fileSize(r) && result0 != nil
+
+//@ func (*BloomSearchEngine).loadBlockRowData
+//@ props C19 C13
+//@ safety
+//@ requires b != nil
+//@ modifies heaps, ghost.opens, ghost.handleCloses
 
 // Scan-buffer pool (codec_pool.go). bufOwned[a] means backing array a is checked
 // out of the pool: set by getScanBuffer, cleared by putScanBuffer, which
